@@ -352,7 +352,7 @@ func c20StrategyEmissions(p *Prog, l *Ledger) {
 					}
 				}
 				if !okVal {
-					if fr, _, ok := loadedField(arg); ok && types.Identical(fr.Type, recvT) && isIntegral(structOf(recvT).Field(fr.Index).Type()) {
+					if fr, _, ok := loadedField(arg); ok && types.Identical(fr.Type, recvT) && isIntegral(structOf(recvT).Field(fr.Index).Type()) && c20IsCounterField(p, fr) {
 						okVal, readAt = true, arg.(ssa.Instruction)
 						for _, d := range incs {
 							if !sameField(d.Field, fr) {
@@ -966,6 +966,17 @@ func c20Lifecycle(p *Prog, l *Ledger, locks *LockInfo, nt *types.Named) {
 				switch x := ins.(type) {
 				case *ssa.Send:
 					sends++
+					// a blocking send while holding a mutex the poller takes on every tick needs room in the channel: the
+					// poller may be waiting for that mutex instead of for the stop signal
+					if fr, _, isF := loadedField(strip(x.Chan, false)); isF {
+						for k := range locks.Held(ins) {
+							for m := range pollerLocks {
+								if strings.HasSuffix(k, "."+m) && !c20ChanBuffered(p, fr) {
+									bad = append(bad, fmt.Sprintf("%s: Stop sends on the unbuffered channel %s while holding %s, which the poller locks on every tick: both wait for each other when a tick is pending", p.At(ins), fr.Name, k))
+								}
+							}
+						}
+					}
 				case *ssa.Select:
 					for _, s := range x.States {
 						if s.Dir == types.SendOnly {
@@ -1252,4 +1263,43 @@ func c20IsCounterListener(p *Prog, c *Call) bool {
 		}
 	}
 	return n > 0 && n == counts
+}
+
+// c20IsCounterField: some method of the field's type changes it by +1 or -1 (it counts something); the enforced limit,
+// which is an integer field of the same struct, does not qualify.
+func c20IsCounterField(p *Prog, fr FieldRef) bool {
+	for _, f := range p.Funcs {
+		found := false
+		allInstrs(f, func(ins ssa.Instruction) {
+			if d, ok := p.DeltaOf(ins); ok && sameField(d.Field, fr) && (d.By == 1 || d.By == -1) {
+				found = true
+			}
+		})
+		if found {
+			return true
+		}
+	}
+	return false
+}
+
+// c20ChanBuffered: every channel stored into the field is made with a constant capacity >= 1.
+func c20ChanBuffered(p *Prog, fr FieldRef) bool {
+	n, ok := 0, true
+	for _, f := range p.Funcs {
+		for _, a := range p.Accesses(f) {
+			if !a.Write || a.Pointee || !sameField(a.Field, fr) {
+				continue
+			}
+			n++
+			mc, isMk := strip(a.Val, false).(*ssa.MakeChan)
+			if !isMk {
+				ok = false
+				continue
+			}
+			if k, isC := constInt(mc.Size); !isC || k < 1 {
+				ok = false
+			}
+		}
+	}
+	return ok && n > 0
 }
